@@ -30,6 +30,20 @@ func VerifConnectorEventToEvent(e *ConnectorEvent) (*Event, error) {
 	return connectorEventToEvent(fnv.New64(), e)
 }
 
+// VerifConnectorEventsToEvents converts the events with ONE hasher, the way one connector consumer process does.
+func VerifConnectorEventsToEvents(es []*ConnectorEvent) ([]*Event, error) {
+	h := fnv.New64()
+	var out []*Event
+	for _, e := range es {
+		ev, err := connectorEventToEvent(h, e)
+		if err != nil {
+			return nil, err
+		}
+		out = append(out, ev)
+	}
+	return out, nil
+}
+
 func VerifStreamerEventToConnectorEvent(e *Event) (*ConnectorEvent, error) {
 	return streamerEventToConnectorEvent(e)
 }
